@@ -421,7 +421,7 @@ func c10Alg(scs []c10Scenario) func(r *core.Run, idx int, rng *rand.Rand) {
 			}
 			return
 		}
-		c10Judge(r, wl, idx, class, &sc, call, []faultPos{{Op: "SignatureAlgorithm", Occ: 1, Kind: alg}})
+		c10JudgeOpt(r, wl, idx, class, &sc, call, []faultPos{{Op: "SignatureAlgorithm", Occ: 1, Kind: alg}}, true) // no storage operation fails here: any refusal will do
 	}
 }
 
